@@ -1564,6 +1564,9 @@ class Comparator(BinaryOperator):
         self._eval_parent_ = parent
 
         if self._id_ in sources:
+            # a second occurrence of this comparison in the same row: its value is the one bound for the row, not whatever
+            # another evaluation that shares this node computed last
+            self._is_false_ = not bool(sources[self._id_])
             yield OperationResult(sources, self._is_false_, self)
             return
 
